@@ -212,7 +212,10 @@ def checkRig (prop : String) (input : Json) (impl : Json) : PropOut := Id.run do
         match rl.find? (fun x => (jnat x "id").toOption.getD 0 = id) with
         | none => fails := fails ++ [s!"no-response:{e}:{id}"]
         | some x =>
-          let got : String × List String := (statusClass ((x.getObjVal? "status").toOption.bind (·.getInt?.toOption) |>.getD 0), strList x "log")
+          let got0 : String × List String := (statusClass ((x.getObjVal? "status").toOption.bind (·.getInt?.toOption) |>.getD 0), strList x "log")
+          -- a framework may answer OPTIONS by itself (echo: 204 + Allow) without entering any handler: nothing of the
+          -- route ran - no authorization check, no controller call - so the verb is not SERVED by the generated router
+          let got := if kind = "other-verb" && got0.2.isEmpty && got0.1 = "204" then ("not-served", []) else got0
           views := views ++ [(e, got)]
           let bodyText := jstrD x "body"
           let canonBody := match Json.parse bodyText with
